@@ -206,6 +206,24 @@ def run(ck):
                          dict(desc), key=json.dumps(dict(site='converter', mode='zero_one', what='logit-diff-roundtrip')))
         if Pb.shape != (N, 2) or not np.all(np.isfinite(Pb)) or np.any(Pb < 0) or np.any(np.abs(Pb.sum(1) - 1) > 1e-5):
             ck.violation(f'decoding the codes of a logit_diff converter gives an invalid probability row on {desc}', dict(desc), key=json.dumps(dict(site='converter', mode='zero_one', what='logit-diff-valid')))
+    # ---- label tensors of narrow / boolean dtype (uint8 for any K, bool for K = 2): labels are class ids whatever they are stored in — torch would read such a tensor as a MASK
+    #      if it were used as an index without a cast
+    urng = np.random.default_rng(ck.seed + 1313)
+    for trial in range(ck.n(8, 40)):
+        K = int(urng.integers(2, 7)); mode = ['prevalence', 'zero_one'][trial % 2]
+        N = [K, int(urng.integers(1, 30)), 2 * K][trial % 3]
+        lab = urng.integers(0, K, size=N); 
+        for dt in ([torch.uint8, torch.bool] if K == 2 else [torch.uint8]):
+            conv = ClassificationConverter(mode=mode, n_classes=K, labels=torch.arange(K).repeat(2))
+            lt = torch.tensor(lab).to(dt)
+            desc = dict(K=K, mode=mode, kind='narrow label dtype', dtype=str(dt), labels=lab.tolist()); ck.case(desc, nontrivial=True); ck.count(f'labels stored as {dt}')
+            try:
+                enc = conv.labels_to_numerical(lt); back = conv.numerical_to_labels(enc).reshape(-1).long()
+            except Exception as e:
+                ck.violation(f'encoding labels stored as {dt} raised {e!r} on {desc}', dict(desc), key=json.dumps(dict(site='converter', mode=mode, what='narrow-dtype-raise'))); continue
+            if enc.shape[0] != N or not torch.equal(back, torch.tensor(lab).long()):
+                ck.violation(f'decode(encode(labels)) != labels for labels stored as {dt}: {lab.tolist()} -> codes of shape {tuple(enc.shape)} -> {back.tolist()} on {desc}', dict(desc),
+                             key=json.dumps(dict(site='converter', mode=mode, what='narrow-dtype-roundtrip')))
     res = ck.run_bool_cases('conv', HEADER, cases, shard=12)
     bad = [meta[k] for k, v in res.items() if v is not True]
     ck.obligation(f'correspondence: {len(cases)} real converters: actual _C/_invA/_prior pass converter_okb, encode == model, decode within tolerance of '
